@@ -378,6 +378,9 @@ class SourceCatalog:
                 raise ValueError(f'{name} must be a 2D array.')
             if shape and array.shape != self._data.shape:
                 raise ValueError(f'data and {name} must have the same shape.')
+            if name == 'error' and array.dtype.kind in 'iu':
+                # the errors are squared; integer dtypes would overflow
+                array = array.astype(float)
         return array
 
     @staticmethod
